@@ -1,13 +1,14 @@
 #!/bin/bash
-# Runs every seeded change under /verif/seeded against the check of the property it breaks
+# Runs every seeded change under /verif/seeded/C* against the check of the property it breaks
 # (and prints whether a VIOLATION was raised). /repo is restored after each.
 cd /verif
+scripts/check C16 quick >/dev/null 2>&1
 for d in /verif/seeded/C*/; do
   id=$(basename $d)
   prop=$(python3 -c "import json;print(json.load(open('$d/meta.json'))['property'])")
   if ! git -C /repo apply --check $d/patch.diff 2>/dev/null; then echo "$id $prop PATCH-DOES-NOT-APPLY"; continue; fi
   git -C /repo apply $d/patch.diff
-  out=$(VERIF_EVIDENCE_DIR=/tmp/seed-evidence scripts/check $prop quick 2>&1)
+  out=$(VERIF_EVIDENCE_DIR=/tmp/seed-evidence /verif/bin/comdexlint -verif /verif -repo /repo -prop $prop -tier quick 2>&1)
   git -C /repo checkout -- .
   if echo "$out" | grep -q "^VIOLATION"; then
     rule=$(echo "$out" | grep -v "^KNOWN" | grep -o "\[R[0-9.a-z]*\]" | sort -u | tr '\n' ' ')
